@@ -5,13 +5,13 @@ import FastorModel.Model.Kern3
 namespace Fastor.Driver
 open Fastor Fastor.Footprint
 
-def lanesToMask (ls : List Nat) : Nat := ls.foldl (fun c l => c ||| (1 <<< l)) 0
+private def lanesToMask (ls : List Nat) : Nat := ls.foldl (fun c l => c ||| (1 <<< l)) 0
 
 /-- mask array encoded as a number: bit `i` set ↔ `maska[i] == -1` -/
-def arrayOfBits (V bits : Nat) : List Int := (List.range V).map fun i => if bits.testBit i then -1 else 0
+private def arrayOfBits (V bits : Nat) : List Int := (List.range V).map fun i => if bits.testBit i then -1 else 0
 
 private def parseInts (s : String) : List Int := (s.splitOn ",").filterMap String.toInt?
-def parseNats (s : String) : List Nat := (s.splitOn ",").filterMap String.toNat?
+private def parseNats (s : String) : List Nat := (s.splitOn ",").filterMap String.toNat?
 
 def runPfoot (kv : List (String × String)) : String := Id.run do
   let some h := getS kv "h" | return "bad-op"
@@ -35,7 +35,7 @@ def runPfoot (kv : List (String × String)) : String := Id.run do
   let lo := ls.foldl (fun m l => min m l) V
   return s!"LANES={lanesToMask ls} LO={lo} HI={hi} CNT={ls.length}"
 
-def resStr : Res → String
+private def resStr : Res → String
   | .err => "err"
   | .ok f => toString f
 
@@ -70,7 +70,7 @@ end Fastor.Driver
 namespace Fastor.Driver
 open Fastor Fastor.Footprint Fastor.Kern3
 
-def hull (ls : List Nat) : Nat × Nat := (ls.foldl (fun m l => min m l) 1000000, ls.foldl (fun m l => max m (l + 1)) 0)
+private def hull (ls : List Nat) : Nat × Nat := (ls.foldl (fun m l => min m l) 1000000, ls.foldl (fun m l => max m (l + 1)) 0)
 
 /-- `kern3 k=<kernel> branch=.. avx2=0|1 K=..`: per operand the lowest offset and highest offset + 1 touched, and the set of
     result elements written -/
@@ -89,6 +89,10 @@ def runKern3 (kv : List (String × String)) : String := Id.run do
     | "trace33f" => some trace33f | "trace33d" => some trace33d
     | "det33" => some det33
     | "dc33f" => some dc33f | "dc33d" => some dc33d
+    | "transpose33d" => some (transpose33d (if br == .avx512 then 8 else if br == .avx then 4 else 2))
+    | "unary4f" => some unary4f | "unary4d" => some unary4d
+    | "transpose44f" => some (transpose44f (br == .avx512))
+    | "matmul222f" => some matmul222f | "matmul444f" => some matmul444f
     | _ => none
   let some k := k | return "bad-op"
   let (alo, ahi) := hull (offsets k 0 false)
